@@ -143,14 +143,24 @@ def specAnswer (fs : List Str) : Option Str :=
       -- a target is inside the proved class iff every rule satisfies the hypotheses of
       -- `kernel_roundtrip_partial` (NA.C05.RuleOK, decidable); otherwise name the reason
       let rules := t.flatMap fun tb => tb.chains.flatMap (·.rules)
-      let why := (rules.flatMap fun r =>
+      let whyOf (r : ARule) : List Str :=
         if decide (NA.C05.RuleOK cfg r) then []
         else if r.any (fun o => match o with | .setMark _ m _ _ => m != s "ffffffff" | _ => false) then [s "mark_with_mask"]
         else if !(decide ((userOpts r).map fun o => (NA.C05.pkv o).1).Nodup &&
                   decide ((kernelOpts cfg r).map fun o => (NA.C05.pkv o).1).Nodup) then [s "repeated_option_key"]
-        else [s "option_outside_grammar"]).eraseDups
+        else [s "option_outside_grammar"]
+      let why := (rules.flatMap whyOf).eraseDups
+      -- where: `table:chain:index:reason` for every rule of the target outside the class (index as in the diff line)
+      let viol := t.flatMap fun tb => tb.chains.flatMap fun ch =>
+        ((List.range ch.rules.length).zip ch.rules).flatMap fun (i, r) =>
+          (whyOf r).map fun w => tb.name ++ [':'] ++ ch.name ++ [':'] ++ natToStr i ++ [':'] ++ w
       some (joinFS [s "OK", joinLS (devText cfg (parseDevRoutes dr) d), joinLS (userText t),
-        if why.isEmpty then s "1" else s "0", joinWith [','] why])
+        if why.isEmpty then s "1" else s "0", joinWith [','] why, joinWith [','] viol])
+    else none
+  | [c, trl, trs, interp, iptFile, rtFile] =>
+    if c = s "boot" then do
+      let t ← parseRS trs
+      some (joinFS [s "boot", bootIptOracle t interp (splitOn1 iptFile LS), bootRouteOracle (splitOn1 trl LS) (splitOn1 rtFile LS)])
     else none
   | [c, names, dr, drs, trl, trs, out] =>
     if c = s "oracle" then do
@@ -170,7 +180,7 @@ def specAnswer (fs : List Str) : Option Str :=
       -- the device afterwards: routes keep their `dev` attribute where they survive
       let newR := v1.routes.map fun k => (k, (devR.find? (·.1 = k)).bind (·.2))
       some (joinFS [if v1.ok && v2.ok then s "ok" else s "fail", v.pred, v.detail,
-        joinLS (devText cfg newR v2.ipt), if v1.ok then [] else v1.pred, if v2.ok then [] else v2.pred])
+        joinLS (devText cfg newR v2.ipt), if v1.ok then [] else v1.pred, if v2.ok then [] else v2.pred, v2.note])
     else none
   | _ => none
 
